@@ -16,7 +16,7 @@ tests_rc=skipped
 if [ -n "$TESTS" ]; then
   tests_rc=$(cd $W/repo && unshare -n bash -c "ip link set lo up; ip route add 224.0.0.0/4 dev lo; PYTHONPATH=$W/repo/src timeout 900 /venv/bin/python -m pytest -q -p no:cacheprovider --timeout=300 $TESTS" > $W/tests.out 2>&1; echo $?)
 fi
-cd /verif
+cd ${VERIF_HOME:-/verif}
 out=$(VERIF_REPO=$W/repo ./check $PROP quick 2>&1)
 rc=$?
 echo "$out" | grep -E "^\[T\]|^\[P\]|^\[C\]|^\[O\]|VIOLATION|exit" | cut -c1-230
